@@ -203,12 +203,38 @@ CrossProg(tl, tr, asobj) ==
       SPrint(EBin("!=", EVar(<<120>>), EVar(<<121>>))),
       SPrint(EBin("==", EList(<<EVar(<<120>>), EVar(<<121>>)>>), EList(<<EVar(<<121>>), EVar(<<120>>)>>)))>>
 CrossEqual(tl, tr) == \A i \in 1 .. 3 : ChildVal(CrossL[tl[i]]) = ChildVal(CrossR[tr[i]])
+\* two evaluations of a building construct give two containers (=== false), however little they hold
+Fresh2 == [
+  lit      |-> <<EList(<<>>), EList(<<>>)>>,
+  rest     |-> <<EVar(<<114, 49>>), EVar(<<114, 50>>)>>,          \* the empty rests of two list patterns
+  objrest  |-> <<EVar(<<113, 49>>), EVar(<<113, 50>>)>>,          \* the empty rests of two object patterns
+  slice    |-> <<ERIndex(EList(<<EInt(1)>>), EInt(1), ENone), ERIndex(EList(<<EInt(1)>>), EInt(1), ENone)>>,
+  range    |-> <<ERange(EInt(3), EInt(3)), ERange(EInt(3), EInt(3))>>,
+  concat   |-> <<EBin("+", EList(<<>>), EList(<<>>)), EBin("+", EList(<<>>), EList(<<>>))>>,
+  spread   |-> <<EListOf(<<Spread(EList(<<>>))>>), EListOf(<<Spread(EList(<<>>))>>)>>,
+  call     |-> <<ECall(EVar(<<109, 107>>), <<>>), ECall(EVar(<<109, 107>>), <<>>)>>,
+  collect  |-> <<ECall(EVar(<<99, 111>>), <<>>), ECall(EVar(<<99, 111>>), <<>>)>>,
+  objlit   |-> <<EObj(<<>>), EObj(<<>>)>>,
+  objspread |-> <<EObj(<<PSpread(EObj(<<>>))>>), EObj(<<PSpread(EObj(<<>>))>>)>>,
+  strslice |-> <<EList(<<ERIndex(EStr(<<97>>), EInt(1), ENone)>>), EList(<<ERIndex(EStr(<<97>>), EInt(1), ENone)>>)>>
+]
+FreshProg(kx) ==
+    <<SDecl(EPatRest(<<EVar(<<117, 49>>), EVar(<<114, 49>>)>>), EList(<<EInt(1)>>)),
+      SDecl(EPatRest(<<EVar(<<117, 50>>), EVar(<<114, 50>>)>>), EList(<<EInt(2)>>)),
+      SDecl(EObj(<<Short(EVar(<<118, 49>>)), PCollect(EVar(<<113, 49>>))>>), EObj(<<Pair(EStr(<<118, 49>>), EInt(1))>>)),
+      SDecl(EObj(<<Short(EVar(<<118, 50>>)), PCollect(EVar(<<113, 50>>))>>), EObj(<<Pair(EStr(<<118, 50>>), EInt(1))>>)),
+      SFn(<<109, 107>>, <<>>, FALSE, <<SReturn(EList(<<>>))>>),
+      SFn(<<99, 111>>, <<EVar(<<122>>)>>, TRUE, <<SReturn(EVar(<<122>>))>>),
+      SDecl(EVar(A), Fresh2[kx][1]), SDecl(EVar(Bv), Fresh2[kx][2]),
+      SPrint(EBin("===", EVar(A), EVar(Bv))), SPrint(EBin("!==", EVar(A), EVar(Bv))), SPrint(EBin("==", EVar(A), EVar(Bv))),
+      SPrint(EBin("===", EVar(A), EVar(A)))>>
 C10Params ==
     { <<"eq", i, j>> : i \in 1 .. NEntries, j \in 1 .. NEntries }
     \cup { <<"ref", i, j>> : i \in ContainerEntries \cup {29, 32}, j \in ContainerEntries \cup {29, 30, 32, 4} }
     \cup { <<"alias", i, 0>> : i \in 1 .. NEntries }
     \cup { <<"lit", i, l * 10 + f>> : i \in 1 .. NEntries, l \in 1 .. Len(LitOperands), f \in 1 .. 4 }
     \cup { <<"cross", <<tl, tr>>, IF asobj THEN 1 ELSE 0>> : tl \in Triples(CrossL), tr \in Triples(CrossR), asobj \in BOOLEAN }
+    \cup { <<"fresh", kx, 0>> : kx \in DOMAIN Fresh2 }
     \cup { <<"nested", i, j>> : i \in {8, 9, 16, 18, 20, 29, 35}, j \in {8, 9, 10, 15, 18, 20, 7, 34} }
 
 C10ProgOf(p) ==
@@ -227,6 +253,7 @@ C10ProgOf(p) ==
             \o <<SPrint(CASE f = 1 -> EBin("==", EVar(A), lit) [] f = 2 -> EBin("==", lit, EVar(A))
                           [] f = 3 -> EBin("!=", EVar(A), lit) [] f = 4 -> EBin("!=", lit, EVar(A))),
                  SPrint(EVar(A))>>
+      [] p[1] = "fresh" -> FreshProg(p[2])
       [] p[1] = "cross" -> CrossProg(p[2][1], p[2][2], p[3] = 1)
       [] p[1] = "alias" ->
             Prelude \o Build(p[2], A) \o <<SDecl(EVar(Bv), EVar(A))>>
@@ -272,5 +299,6 @@ CrossLaws ==
             t == IF eq THEN T_true ELSE T_false
             f == IF eq THEN T_false ELSE T_true IN
         status.k = "done" /\ out = <<t, t, f, t>>
-C10Laws == PairLaws /\ RefPairLaws /\ AliasLaws /\ CrossLaws
+FreshLaws == (Finished /\ pi[1] = "fresh") => (status.k = "done" /\ out = <<T_false, T_true, T_true, T_true>>)
+C10Laws == PairLaws /\ RefPairLaws /\ AliasLaws /\ CrossLaws /\ FreshLaws
 =============================================================================
